@@ -909,10 +909,11 @@ impl Context {
             "as" | "break" | "const" | "continue" | "crate" | "else" | "enum" | "extern"
             | "false" | "fn" | "for" | "if" | "impl" | "in" | "let" | "loop" | "match" | "mod"
             | "move" | "mut" | "pub" | "ref" | "return" | "self" | "static" | "struct"
-            | "super" | "trait" | "true" | "type" | "unsafe" | "use" | "where" | "while" => true,
+            | "super" | "trait" | "true" | "type" | "unsafe" | "use" | "where" | "while"
+            | "await" => true,
             // reserved keywords
             "abstract" | "async" | "become" | "box" | "do" | "final" | "macro" | "override"
-            | "priv" | "typeof" | "unsized" | "virtual" | "yield" => true,
+            | "priv" | "try" | "typeof" | "unsized" | "virtual" | "yield" => true,
             // weak keywords
             "union" | "dyn" => true,
             _ => false,
